@@ -216,6 +216,16 @@ func (fc *fnCtx) evalExpr(e ast.Expr, ev *evalCtx, text string) Val {
 		if name == "$visited" {
 			return Val{T: fc.visitedTerm(ev)}
 		}
+		if strings.HasPrefix(name, "$free") && fc.fn != nil {
+			// $free0, $free1, ...: the captured variables of a closure, by position (rename-proof)
+			k, err := strconv.Atoi(name[5:])
+			if err != nil || k < 0 || k >= len(fc.fn.FreeVars) {
+				return bad("no captured variable %s", name)
+			}
+			fv := fc.fn.FreeVars[k]
+			p := fc.val(fv)
+			return fc.load(ev.cur, fc.pointerAddr(p, fv.Type().(*types.Pointer).Elem()))
+		}
 		if g, ok := ev.cur.ghost[name]; ok {
 			return g
 		}
